@@ -171,7 +171,7 @@ pub const C01: ScenDef = ScenDef {
     profile: |_t| Profile { keepalive: vec![0, 0, 1, 7, 30, 600], w_advance: 3, w_fill: 1, ..Profile::default() },
     nontrivial: |s, _| (s.partial_writes > 0 || s.cancels > 0 || s.faults > 0) && s.out_packets >= 3,
     rule: "proptest-generated (Config, Vec<ConnScript>) histories: all operations, 1-byte..whole write acceptance, cancellation of cancel-safe ops at generated await points, transport faults, inbound traffic needing acks, resumed/fresh reconnects; every transport's accepted bytes are parsed by the strict reference decoder and each packet must be one the model expects. Non-trivial = at least one partial write, cancellation or fault AND at least two packets after CONNECT; distinct = distinct case value (hash).",
-    cases: (48_000, 1_600_000),
+    cases: (240_000, 6_000_000),
     level: "exploration",
 };
 
@@ -195,7 +195,7 @@ pub const C02: ScenDef = ScenDef {
     },
     nontrivial: |s, _| s.replays > 0 && s.resumed_with_inflight > 0,
     rule: "histories dominated by QoS 1 publishes with connection death at generated write/flush/read indices and by handle drop, 2-6 consecutive connections with generated session-present answers, PUBACKs in any order incl. stale ones; oracle = per-message replay invariant over the wire (exactly once per resumed connection before any new id-bearing packet, same id, DUP, byte-identical, acceptance order, never within a connection, never after PUBACK). Non-trivial = some message is retransmitted on a resumed connection; distinct = distinct case value.",
-    cases: (48_000, 1_600_000),
+    cases: (240_000, 6_000_000),
     level: "exploration",
 };
 
@@ -222,7 +222,7 @@ pub const C03: ScenDef = ScenDef {
     },
     nontrivial: |s, _| (s.qos2_overlap_ooo > 0 && s.acks_out_of_order > 0) || s.rel_replays > 0 || (s.qos2_flights > 0 && s.replays > 0),
     rule: "1-8 concurrent QoS 2 publishes, scripted broker PUBREC/PUBCOMP in generated orders and forms, failing PUBREC codes, crashes between the four steps, resumed reconnects, stale PUBRECs; oracle = per (session epoch, id) four-state machine over wire + consumed acks (PUBREL only after successful PUBREC, no PUBLISH afterwards, PUBREL replay once per resumed connection, failing PUBREC ends the exchange, PUBREL order = PUBREC order). Non-trivial = overlapping exchanges with out-of-order acks, or an exchange crossing a reconnect; distinct = distinct case value.",
-    cases: (48_000, 1_600_000),
+    cases: (240_000, 6_000_000),
     level: "exploration",
 };
 
@@ -250,7 +250,7 @@ pub const C04: ScenDef = ScenDef {
     },
     nontrivial: |s, _| s.inbound_qos2_dups > 0 || s.reconnect_between_pub_and_rel > 0 || s.max_inbound_inflight >= 3,
     rule: "broker PUBLISH with all QoS, ids, retain, generated property sets (incl. several subscription ids / user properties), DUP retransmissions of pending QoS 2 ids, PUBREL for pending and unknown ids, at most the advertised Receive Maximum unacknowledged, interleaved with outbound traffic on small transmit arenas, resumed/fresh reconnects between PUBLISH and PUBREL; oracle = reference receiver model (deliveries field-wise equal and exactly once, acks owed in arrival order with the right reason class, pending set cleared by a fresh session). Non-trivial = a QoS 2 duplicate, a reconnect between PUBLISH and PUBREL, or >= 3 inbound ids in flight; distinct = distinct case value.",
-    cases: (48_000, 1_600_000),
+    cases: (240_000, 6_000_000),
     level: "exploration",
 };
 
@@ -267,7 +267,7 @@ pub const C05: ScenDef = ScenDef {
     },
     nontrivial: |s, _| (s.fresh_with_inflight > 0 && s.resumed_with_inflight > 0) || (s.failed_handshakes > 0 && s.fresh_with_inflight + s.resumed_with_inflight > 0),
     rule: "sequences of 2-8 connections with arbitrary legal session-present answers, interleaved rejected / garbled / EOF / I/O-failed / cancelled handshakes and an arbitrary in-flight mix at each loss; oracle = decoded CONNECT of each transport (clean start only until the first successful CONNACK, client id) plus the replay / discard rules over the wire and handle invalidation. Non-trivial = a fresh and a resumed answer both with something in flight, or a failed handshake with something in flight; distinct = distinct case value.",
-    cases: (48_000, 1_600_000),
+    cases: (240_000, 6_000_000),
     level: "exploration",
 };
 
@@ -293,7 +293,7 @@ pub const C06: ScenDef = ScenDef {
     },
     nontrivial: |s, _| s.small_rm_qos2 || s.resumed_with_inflight > 0,
     rule: "Receive Maximum drawn from {1,2,3,4,7,8,9,300,65535,absent} (weighted to small), QoS 1/2 mixes, generated ack timing/orders (PUBREC long before PUBCOMP), cancellations, resumed reconnects with messages in flight; oracle = counting invariant on the wire at every completed QoS>0 PUBLISH, refused publishes leave nothing on the wire, no accepted exchange vanishes (handles). Non-trivial = Receive Maximum <= 4 with QoS 2 traffic, or a resumed reconnect with in-flight messages; distinct = distinct case value.",
-    cases: (48_000, 1_600_000),
+    cases: (240_000, 6_000_000),
     level: "exploration",
 };
 
@@ -313,7 +313,7 @@ pub const C11: ScenDef = ScenDef {
     },
     nontrivial: |s, _| s.dead_tail_ops > 0,
     rule: "random histories with read error / EOF / write error / flush error at generated I/O-call indices, broker DISCONNECT, local disconnect(), followed by a generated tail of further API calls on the same handle; oracle = after the first death result is_connected()/can_publish() stay false, every network op returns the disconnected error (disconnect -> Ok) and the transport's I/O poll counter does not move. Non-trivial = at least one API call was made on a dead handle; distinct = distinct case value.",
-    cases: (48_000, 1_600_000),
+    cases: (240_000, 6_000_000),
     level: "fault_enumeration",
 };
 
@@ -333,7 +333,7 @@ pub const C18: ScenDef = ScenDef {
     },
     nontrivial: |s, _| s.max_distinct_status >= 2 || s.failure_codes > 0,
     rule: "all operation kinds, all ack orders and reason codes (success/failure, all three encodings), reconnect patterns; handle predicates sampled after every step and compared with the model (invalidated iff a fresh session replaced the issuing one, complete iff the final ack was consumed, else pending; exactly one predicate true; failing acks surface as Rejected(code) from the consuming op). Non-trivial = handles with at least two different expected statuses at one sample, or a failure reason code; distinct = distinct case value.",
-    cases: (48_000, 1_600_000),
+    cases: (240_000, 6_000_000),
     level: "exploration",
 };
 
